@@ -32,6 +32,10 @@ def generate(rng, focus, tier="quick"):
         m = rng.randrange(1, 13)
         import calendar
         d0 = cal.epoch_day(y, m, calendar.monthrange(y, m)[1]) - rng.randrange(0, 4)
+    elif r < 0.40:
+        # far dates: century years without a leap day, years before 1970 (negative epoch), the 22nd century
+        y = rng.choice([1900, 1900, 2100, 2100, 1899, 1950, 1962, 1969, 1970, 2000, 2200])
+        d0 = cal.epoch_day(y, rng.choice([1, 2, 2, 2, 3, 12]), rng.randrange(1, 28))
     else:
         d0 = rng.randrange(cal.epoch_day(1999, 1, 1), cal.epoch_day(2024, 12, 1))
     length = rng.choice(LENGTHS) if tier == "quick" else rng.choice(LENGTHS + [800, 1500])
@@ -134,6 +138,34 @@ def _run(plan, ctx):
         ctx.violate("C12", "clock_raised_on_valid_range", {"start": iso(start), "end": iso(end), "exc": repr(e)[:300]})
         ctx.violate("C13", "clock_raised_on_valid_range", {"start": iso(start), "end": iso(end), "exc": repr(e)[:300]})
         return
+    # the same engine object iterated again: after an abandoned partial pass, twice at once, and once more in full
+    try:
+        it = iter(eng)
+        k = plan.get("peek", 3)
+        for _ in range(k):
+            try:
+                next(it)
+            except StopIteration:
+                break
+        del it
+        pairs = []
+        for a_, b_ in zip(eng, eng):
+            pairs.append((a_.ts, a_.event_type, b_.ts, b_.event_type))
+            if len(pairs) >= 4:
+                break
+        again = [(ev.ts, ev.event_type) for ev in eng]
+    except Exception as e:
+        ctx.violate("C12", "clock_raised_on_second_iteration", {"exc": repr(e)[:300]})
+        return
+    if ctx.judging("C12"):
+        ctx.check("C12", again == events, "second_iteration_of_the_same_clock_differs",
+                  lambda: {"start": iso(start), "end": iso(end), "first_pass": len(events), "later_pass": len(again),
+                           "later_first": [(str(t), k_) for t, k_ in again[:2]]},
+                  sig="second_iteration_of_the_same_clock_differs")
+        ctx.check("C12", all(p_[0] == p_[2] and p_[1] == p_[3] for p_ in pairs) and
+                  [(p_[0], p_[1]) for p_ in pairs] == events[:len(pairs)], "simultaneous_iterations_of_one_clock_interfere",
+                  lambda: {"pairs": [(str(a), b, str(c), d) for a, b, c, d in pairs[:3]]},
+                  sig="simultaneous_iterations_of_one_clock_interfere")
     want = cal.engine_events(start, end, pre=plan["pre"], post=plan["post"])
     got = [(epoch(t), typ) for t, typ in events]
     ctx.event("clock", start, end, plan["pre"], plan["post"], len(got))
